@@ -10,6 +10,7 @@ CONSTANTS
   Extra <- Race3
   GFirst = TRUE
   SelDet = FALSE
+  RecSteps = FALSE
   LogOn = TRUE
 VIEW View
 INVARIANT Exclusion
